@@ -236,4 +236,19 @@ CLAIMS = {
         "note": "no unbounded claim for _value_to_cst/is_assertable; pytest.approx semantics and libcst token validation are "
                 "trusted; names of enum classes are assumed to be public names of the module under test (bound in the test file).",
     },
+    "C15": {
+        "category": "other",
+        "text": "Bounded stand-in (not a proof): the real TestCase operations (append_test_case_from through the real "
+                "splice_test_case_chromosomes, chop, remove_statement_with_forward_dependencies, forward_dependencies, clone, "
+                "remove_unused_variables) are run on every well-formed test case of <= 2 (thorough: 3) statements as first parent "
+                "and <= 3 statements as second parent over 7 statement templates (typed/untyped bindings, calls without binding, "
+                "statements reading two variables), every pair of cut points and two length limits; after each operation the "
+                "result is checked for: valid Python, every read variable bound by an earlier statement, pairwise distinct bound "
+                "names below the name counter, type registry equal to the statements, length within the maximum, other parent "
+                "unchanged, forward closure complete.",
+        "technique": "bounded contract check, exhaustive small scope (the operations rename variables through libcst visitors; a "
+                     "deductive proof of append_test_case_from is planned in DESIGN.md but not built)",
+        "note": "no unbounded claim; the test factory (insertion, deletion and change of statements, 2.7k lines of libcst "
+                "manipulation) and local search are not covered; 'valid Python' is checked by parsing the rendered test case.",
+    },
 }
